@@ -90,7 +90,7 @@ def run(tier, seed):
     for y, f in wfiles:
         ok, out = res_w[f]
         ck.harvest_assumptions(out)
-        ck.oblige('theorem:C10_waits_collected_%d (every line of the catalogue, every store: a name the interpreter waits for was collected by the analysis; an attribute error comes only from a node the analysis flagged)' % y, ok, out[-300:] if not ok else '')
+        ck.oblige('theorem:C10_waits_collected_%d (every line of the catalogue, every store: a name the interpreter waits for was collected by the analysis; an attribute error or a failed threshold assertion comes only from a node the analysis collected)' % y, ok, out[-300:] if not ok else '')
         if not ok:
             ck.violation('C10:%d:waits-collected' % y, 'ty%d: the reference analysis ran out of its fuel on some line, so its collection is not known to cover what the interpreter can ask for' % y,
                          {'kind': 'proof-or-correspondence', 'theorem_or_correspondence': 'C10_waits_collected_%d' % y}, found=False)
